@@ -4,6 +4,7 @@ import TantivyModel.Proofs.PhraseSlop
 import TantivyModel.Proofs.OrderEnc
 import TantivyModel.Proofs.LeafTree
 import TantivyModel.Proofs.JsonRange
+import TantivyModel.Proofs.FastRange
 import TantivyModel.Proofs.PhraseAlign
 import TantivyModel.Proofs.PhraseExact
 import TantivyModel.Gen.PhraseScorer
@@ -590,6 +591,27 @@ theorem C03_phrase_prefix_gap (d : ADoc) (f : Nat) (t pre : Bytes) (g : Nat) :
     simp at hot; subst hot
     exact ⟨pos, hpos, by simp⟩
 
+/-! ## fast-field range: the scorer chosen by min/max pruning -/
+
+/-- `search_on_u64_ff`: whichever scorer the pruning picks — `EmptyScorer` (empty value range, incl.
+the `checked_add` / `checked_sub` overflows), `AllScorer` (range covering [min, max] of a full
+column) or a `RangeDocSet` over the clamped range — it selects a value of the column iff the value
+lies within the query bounds, for every inclusive / exclusive / unbounded combination and any
+column bounds `colMin ≤ v ≤ colMax` (they need not be tight) -/
+theorem C03_fast_range_pruning_sound (lo hi : BndN) (colMin colMax : Nat) (full : Bool) (v : Nat)
+    (hmin : colMin ≤ v) (hmax : v ≤ colMax) (hv : v ≤ FastRange.U64MAX) :
+    (FastRange.classify lo hi colMin colMax full).selects v = inRangeN lo hi v :=
+  FastRange.classify_sound lo hi colMin colMax full v hmin hmax hv
+
+/-- in particular the type-based All/Empty elimination of `complex_scorer` is fed correct facts:
+`AllScorer` only for a full column all of whose values are in range, `EmptyScorer` only when none is -/
+theorem C03_fast_range_all_empty (lo hi : BndN) (colMin colMax : Nat) (full : Bool) :
+    (FastRange.classify lo hi colMin colMax full = .all →
+        full = true ∧ ∀ v, colMin ≤ v → v ≤ colMax → v ≤ FastRange.U64MAX → inRangeN lo hi v = true)
+      ∧ (FastRange.classify lo hi colMin colMax full = .empty →
+        ∀ v, colMin ≤ v → v ≤ colMax → v ≤ FastRange.U64MAX → inRangeN lo hi v = false) :=
+  FastRange.classify_all_empty lo hi colMin colMax full
+
 /-! ## range over a numeric JSON path: bound type × column type -/
 
 /-- `search_on_json_numerical_field` + `transform_from_f64_bounds`: for every bound kind (inclusive /
@@ -630,6 +652,18 @@ theorem C03_json_range_coercion_extracted (col : JsonRange.ColT) (lo hi : JsonRa
   · rw [hg]; exact C03_json_range_coercion col lo hi v hv hlo hhi
   · rw [hg, JsonRange.implMatchG_pinned]
     exact C03_json_range_coercion_partial col lo hi v hv hlo hhi hl hu
+
+/-- the guards read from the source as it is now: all three rows are in their repaired form
+(fix 72d566d2e); this theorem stops checking if one of them regresses -/
+theorem C03_json_range_guards_repaired : JsonRange.Guards.extracted = JsonRange.Guards.repaired := by
+  decide
+
+/-- hence, for the code as it is now, the executed table is exact for every bound kind, bound type
+(i64 / u64 / f64 term, |f64| < 2^52) and integer column type — no side condition left -/
+theorem C03_json_range_coercion_current (col : JsonRange.ColT) (lo hi : JsonRange.B) (v : Int)
+    (hv : JsonRange.inCol col v) (hlo : lo.wf) (hhi : hi.wf) :
+    JsonRange.implMatchG JsonRange.Guards.extracted col lo hi v = JsonRange.specMatch lo hi v :=
+  C03_json_range_coercion_extracted col lo hi v hv hlo hhi (Or.inl C03_json_range_guards_repaired)
 
 /-- integer-typed bounds (i64 / u64 terms): only the lower-bound condition remains -/
 theorem C03_json_int_range_coercion_partial (col : JsonRange.ColT) (lo hi : JsonRange.B) (v : Int)
@@ -758,6 +792,12 @@ example : JsonRange.Guards.extracted = JsonRange.Guards.repaired ∨ JsonRange.G
 example : JsonRange.implMatchG JsonRange.Guards.repaired .u64 .unb (.incl (.f (-3))) 0 = false
     ∧ JsonRange.implMatchG JsonRange.Guards.repaired .i64 (.incl (.f 5)) .unb 2 = false
     ∧ JsonRange.implMatchG JsonRange.Guards.repaired .i64 (.incl (.u (2 ^ 63))) .unb 5 = false := by decide
+example : FastRange.classify (.incl 3) (.excl 10) 3 9 true = .all
+    ∧ FastRange.classify (.incl 3) (.excl 10) 3 9 false = .range 3 9
+    ∧ FastRange.classify (.excl 9) .unb 3 9 true = .empty
+    ∧ FastRange.classify .unb (.excl 0) 0 9 true = .empty
+    ∧ FastRange.classify (.excl FastRange.U64MAX) .unb 0 FastRange.U64MAX true = .empty
+    ∧ (3 : Nat) ≤ 5 ∧ (5 : Nat) ≤ FastRange.U64MAX := by decide
 example : (JsonRange.B.excl (.f (-3))).small ∧ (JsonRange.B.incl (.i 7)).small
     ∧ JsonRange.implMatchF (.excl (.f (-3))) (.incl (.i 7)) 5 = true
     ∧ JsonRange.implMatchF (.excl (.f (-3))) (.incl (.i 7)) (-3) = false := by
